@@ -311,6 +311,15 @@ func (p DHCP4) AppendOptions(options DHCP4Options, order []byte) int {
 
 	// first copy parameters in order
 	for _, code := range order {
+		if DHCP4OptionCode(code) == DHCP4OptionRouter {
+			if mask, ok := options[DHCP4OptionSubnetMask]; ok { // rfc2132 3.3: subnet mask must precede the router option
+				buffer[pos] = byte(DHCP4OptionSubnetMask)
+				buffer[pos+1] = byte(len(mask))
+				pos = pos + 2
+				pos = pos + copy(buffer[pos:], mask)
+				delete(options, DHCP4OptionSubnetMask)
+			}
+		}
 		if value, ok := options[DHCP4OptionCode(code)]; ok {
 			buffer[pos] = byte(code)
 			buffer[pos+1] = byte(len(value))
